@@ -2,6 +2,7 @@ package props
 
 import (
 	"encoding/binary"
+	"fmt"
 	"hash/fnv"
 	"math"
 	"sync"
@@ -33,12 +34,22 @@ func numberCode(f float64) [8]byte {
 }
 
 type prefixTwin struct{ X, Y float64 }
+type stringTwin struct{ X, Y string }
+type codeQuad struct{ A, B, C, D float64 }
 
 var (
-	twinOnce     sync.Once
-	prefixTwins  []prefixTwin // two-decimal numbers whose codes share the first four bytes
-	textCodeNums []float64    // whole numbers whose code is valid UTF-8 text
+	twinOnce      sync.Once
+	prefixTwins   []prefixTwin // two-decimal numbers whose codes share the first four bytes
+	stringTwins   []stringTwin // identifier-like strings whose codes share the first four bytes
+	stringTwinsHi []stringTwin // ... the last four bytes
+	textCodeNums  []float64    // whole numbers whose code is valid UTF-8 text
+	xorQuads      []codeQuad   // code(A)^code(B) == code(C)^code(D), all four different
+	sumQuads      []codeQuad   // code(A)+code(B) == code(C)+code(D)
 )
+
+var stringPrefixBytes = []byte{0x8B, 0x1E, 0x52, 0x0C, 0x37, 0xA9, 0xD4, 0x61} // jd tags strings with these bytes before hashing
+
+func stringCode(s string) [8]byte { return fnvLE(append(append([]byte{}, stringPrefixBytes...), s...)) }
 
 func buildTwins() {
 	twinOnce.Do(func() {
@@ -52,6 +63,47 @@ func buildTwins() {
 				prefixTwins = append(prefixTwins, prefixTwin{g, f})
 			} else {
 				seen[p] = f
+			}
+		}
+		seenLo, seenHi := map[[4]byte]string{}, map[[4]byte]string{}
+		for k := 0; k < 1000000 && (len(stringTwins) < 24 || len(stringTwinsHi) < 24); k++ {
+			str := fmt.Sprintf("id-%06d", k)
+			c := stringCode(str)
+			var lo, hi [4]byte
+			copy(lo[:], c[:4])
+			copy(hi[:], c[4:])
+			if g, ok := seenLo[lo]; ok && len(stringTwins) < 24 {
+				stringTwins = append(stringTwins, stringTwin{g, str})
+			} else {
+				seenLo[lo] = str
+			}
+			if g, ok := seenHi[hi]; ok && len(stringTwinsHi) < 24 {
+				stringTwinsHi = append(stringTwinsHi, stringTwin{g, str})
+			} else {
+				seenHi[hi] = str
+			}
+		}
+		// pairs of small whole numbers whose codes have the same XOR / the same sum
+		type pair struct{ a, b int }
+		code := make([]uint64, 1500)
+		for i := range code {
+			c := numberCode(float64(i - 100))
+			code[i] = binary.LittleEndian.Uint64(c[:])
+		}
+		xs, ss := map[uint64]pair{}, map[uint64]pair{}
+		for i := 0; i < len(code) && (len(xorQuads) < 16 || len(sumQuads) < 16); i++ {
+			for j := i + 1; j < len(code); j++ {
+				x, sm := code[i]^code[j], code[i]+code[j]
+				if p, ok := xs[x]; ok && p.a != i && p.b != j && p.b != i && len(xorQuads) < 16 {
+					xorQuads = append(xorQuads, codeQuad{float64(p.a - 100), float64(p.b - 100), float64(i - 100), float64(j - 100)})
+				} else if !ok {
+					xs[x] = pair{i, j}
+				}
+				if p, ok := ss[sm]; ok && p.a != i && p.b != j && p.b != i && len(sumQuads) < 16 {
+					sumQuads = append(sumQuads, codeQuad{float64(p.a - 100), float64(p.b - 100), float64(i - 100), float64(j - 100)})
+				} else if !ok {
+					ss[sm] = pair{i, j}
+				}
 			}
 		}
 		for k := 0; k < 60000 && len(textCodeNums) < 40; k++ {
@@ -78,7 +130,34 @@ func hashShapePair(t *rapid.T) (a, b val.V) {
 		}
 		return x, y
 	}
-	switch gen.Int(t, "hashShape", 0, 3) {
+	switch gen.Int(t, "hashShape", 0, 6) {
+	case 4: // strings whose codes share four bytes, facing each other or exchanged
+		pool := stringTwins
+		if gen.Chance(t, "hiBytes", 40) {
+			pool = stringTwinsHi
+		}
+		if len(pool) > 0 {
+			tw := gen.Pick(t, "stringTwin", pool)
+			if gen.Chance(t, "exchanged", 50) {
+				return wrap([]val.V{tw.X, tw.Y}, []val.V{tw.Y, tw.X})
+			}
+			return wrap([]val.V{"h", tw.X, "t"}, []val.V{"h", tw.Y, "t"})
+		}
+	case 5: // two pairs of numbers whose codes combine (xor, sum) to the same word
+		pool := xorQuads
+		if gen.Chance(t, "sum", 40) {
+			pool = sumQuads
+		}
+		if len(pool) > 0 {
+			q := gen.Pick(t, "quad", pool)
+			return wrap([]val.V{q.A, q.B}, []val.V{q.C, q.D})
+		}
+	case 6: // an 8-byte string and the number with the same bytes
+		s8 := gen.Pick(t, "s8", []string{"AAAAAAAA", "password", "12345678", "abcdefgh", "        "})
+		f := math.Float64frombits(binary.LittleEndian.Uint64([]byte(s8)))
+		if !math.IsNaN(f) && !math.IsInf(f, 0) {
+			return wrap([]val.V{"h", s8, "t"}, []val.V{"h", f, "t"})
+		}
 	case 0: // prefix twins, exchanged
 		if len(prefixTwins) > 0 {
 			tw := gen.Pick(t, "prefixTwin", prefixTwins)
@@ -117,3 +196,35 @@ func hashShapePair(t *rapid.T) (a, b val.V) {
 }
 
 var _ = rapid.Bool
+
+// twinArrays: two arrays equal except at one position, where two different
+// scalars with related content codes face each other.
+func twinArrays(t *rapid.T) ([]val.V, []val.V) {
+	buildTwins()
+	var x, y val.V
+	switch gen.Int(t, "twinKind", 0, 3) {
+	case 0:
+		tw := gen.Pick(t, "stringTwin", stringTwins)
+		x, y = tw.X, tw.Y
+	case 1:
+		tw := gen.Pick(t, "stringTwinHi", stringTwinsHi)
+		x, y = tw.X, tw.Y
+	case 2:
+		tw := gen.Pick(t, "prefixTwin", prefixTwins)
+		x, y = tw.X, tw.Y
+	default:
+		s8 := gen.Pick(t, "s8", []string{"AAAAAAAA", "password", "12345678", "abcdefgh"})
+		x, y = s8, math.Float64frombits(binary.LittleEndian.Uint64([]byte(s8)))
+	}
+	n := gen.Int(t, "twinLen", 1, 6)
+	at := gen.Int(t, "twinAt", 0, n-1)
+	a, b := make([]val.V, n), make([]val.V, n)
+	for i := range a {
+		a[i], b[i] = float64(i), float64(i)
+	}
+	a[at], b[at] = x, y
+	if gen.Chance(t, "twinInObject", 30) {
+		a[at], b[at] = map[string]val.V{"v": x, "w": 1.0}, map[string]val.V{"v": y, "w": 1.0}
+	}
+	return a, b
+}
